@@ -1093,7 +1093,7 @@ _CENV = _corpus.make_env(Env)
 
 def _corpus_skip(w2, w1, leaf):
     src = _corpus.source(w2, w1, leaf)
-    # extra tags: outside the quantifier; raw blocks: their str() drops the tags (listed known finding, c04_e5_raw)
+    # extra tags: outside the quantifier; raw blocks: their str() drops the tags (listed known finding, c04_e3_raw_markup)
     return "{% with" in src or "{% macro" in src or "{% translate" in src or "{% raw" in src
 
 
